@@ -13,10 +13,10 @@
    Streams: ints = recorded rng.randint(n**4) results, perms = recorded rng.permutation(m) results,
    ords = the np.argsort results (float-decided: oracle). All theorems hold for ALL such lists; the model
    itself ends in DealError on an `ords`/`perms` entry that is not a permutation of the right range.
-   Further oracles of the null model: isint (W has an integer dtype), close (result of np.allclose(W, W.T), only
-   consulted for W that is not exactly symmetric), pf (float result of np.round(1/wei_freq), admitted within 1 of
-   the exact quotient).  A call ends as Returned r | ParamError | NoQuad (RecursionError of the node picker) |
-   BadPeriod | CastError (UFuncTypeError on integer W) | DealError; C06_null_model_total says when it is Returned. *)
+   Further oracles of the null model: close (result of np.allclose(W, W.T), only consulted for W that is not exactly
+   symmetric), pf (float result of np.round(1/wei_freq), admitted within 1 of the exact quotient).  A call ends as
+   Returned r | ParamError | NoQuad (the recorded randint draws run out: model-level out-of-fuel) | BadPeriod |
+   DealError; C06_null_model_total says when it is Returned. *)
 From Coq Require Import ZArith QArith List Arith Bool.
 From BCT Require Import Base.Mat Base.ListX Model.Signed Model.NullModel Proofs.Signed Proofs.NullModelTop
   Proofs.NullModelCorr Proofs.SignedFull Proofs.NullModelCorrRange Proofs.NullModelTotal.
@@ -71,21 +71,21 @@ Proof. exact randmio_signed_inv. Qed.
    the output has the input's signed degrees (in and out), the input's multiset of entries, an empty diagonal,
    is symmetric (und), carries the rewired sign pattern, and the returned correlations are those of the strength
    sequences of the (diagonal-cleared) input and the output. *)
-Theorem C06_deal_multiset_corr_def : forall und n W isint close bin_swaps wei_freq pf ints ords perms r,
+Theorem C06_deal_multiset_corr_def : forall und n W close bin_swaps wei_freq pf ints ords perms r,
   (0 < n)%nat -> pre und n W ->
-  null_model und n W isint close bin_swaps wei_freq pf ints ords perms = Returned r -> null_model_property und n W r.
+  null_model und n W close bin_swaps wei_freq pf ints ords perms = Returned r -> null_model_property und n W r.
 Proof. exact null_model_meets_property. Qed.
 
 (* the same without the symmetry hypothesis when the np.allclose oracle is not used (close = false): a run that
    returns has then passed the model's own exact symmetry test *)
-Theorem C06_null_model_checked_symmetry : forall und n W isint bin_swaps wei_freq pf ints ords perms r, (0 < n)%nat ->
-  null_model und n W isint false bin_swaps wei_freq pf ints ords perms = Returned r -> null_model_property und n W r.
+Theorem C06_null_model_checked_symmetry : forall und n W bin_swaps wei_freq pf ints ords perms r, (0 < n)%nat ->
+  null_model und n W false bin_swaps wei_freq pf ints ords perms = Returned r -> null_model_property und n W r.
 Proof. exact null_model_checked_symmetry. Qed.
 
 (* the general form, including the rewired matrix and every intermediate state of the inner rewiring *)
-Theorem C06_null_model_inv_general : forall und n W isint close bin_swaps wei_freq pf ints ords perms r,
+Theorem C06_null_model_inv_general : forall und n W close bin_swaps wei_freq pf ints ords perms r,
   (0 < n)%nat -> pre und n W ->
-  null_model und n W isint close bin_swaps wei_freq pf ints ords perms = Returned r ->
+  null_model und n W close bin_swaps wei_freq pf ints ords perms = Returned r ->
   sinv und n (clear_diag W) (nm_W0 r) /\
   (forall i, (i < n)%nat -> nm_W0 r i i = 0) /\
   (forall i j, (i < n)%nat -> (j < n)%nat -> Z.sgn (nm_W0 r i j) = Z.sgn (nm_Wr r i j)) /\
@@ -94,16 +94,16 @@ Theorem C06_null_model_inv_general : forall und n W isint close bin_swaps wei_fr
   nm_corr r = corr4 n (clear_diag W) (nm_W0 r).
 Proof. exact null_model_inv. Qed.
 
-Theorem C06_null_model_rewiring_inv : forall und n W isint close bin_swaps wei_freq pf ints ords perms r,
+Theorem C06_null_model_rewiring_inv : forall und n W close bin_swaps wei_freq pf ints ords perms r,
   (0 < n)%nat -> pre und n W ->
-  null_model und n W isint close bin_swaps wei_freq pf ints ords perms = Returned r ->
+  null_model und n W close bin_swaps wei_freq pf ints ords perms = Returned r ->
   let ok := fun M => same_signed_degrees n (clear_diag W) M /\ same_entries n (clear_diag W) M /\
                      same_diag n (clear_diag W) M /\ (und = true -> symn n M) in
   ok (nm_Wr r) /\ Forall (fun e => ok (snd e)) (nm_trace r).
 Proof. exact null_model_rewiring_inv. Qed.
 
-Theorem C06_null_model_und_rejects : forall n W isint bin_swaps wei_freq pf ints ords perms,
-  symb n W = false -> null_model true n W isint false bin_swaps wei_freq pf ints ords perms = ParamError.
+Theorem C06_null_model_und_rejects : forall n W bin_swaps wei_freq pf ints ords perms,
+  symb n W = false -> null_model true n W false bin_swaps wei_freq pf ints ords perms = ParamError.
 Proof. exact null_model_und_rejects. Qed.
 
 (* what a returned correlation triple (cxy, cxx, cyy) means: twice the (co)variance sums over all pairs;
@@ -139,12 +139,13 @@ Theorem C06_randmio_diag_refuted :
        randmio_signed und n R itr s = (Rf, sf, tr) -> forall i, (i < n)%nat -> Rf i i = 0).
 Proof. exact diag_clause_refuted. Qed.
 
-(* ---------- calls that do not return ----------
-   randmio_signed_ret = the routine as the caller sees it (None: pick_four_unique_nodes_quickly never returns,
-   RecursionError).  With fewer than four nodes and at least one iteration that is certain, for every stream. *)
-Theorem C06_randmio_small_n_never_returns : forall und n R itr s,
-  (0 < n)%nat -> (n < 4)%nat -> (0 < n_iter und n itr)%nat -> randmio_signed_ret und n R itr s = None.
-Proof. exact small_n_never_returns. Qed.
+(* ---------- fewer than four nodes (`if n < 4: return R, 0`) ----------
+   randmio_signed_ret = the routine as the caller sees it (None only when the recorded draws run out).  A network with
+   fewer than four nodes comes back unchanged, with eff = 0 and no draw consumed, for every itr and every stream; the
+   input trivially has its own degrees, weights and symmetry (C06_signed_run_inv covers it as well). *)
+Theorem C06_randmio_small_n_returns_input : forall und n R itr s,
+  (n < 4)%nat -> randmio_signed_ret und n R itr s = Some (R, s, []).
+Proof. exact small_n_returns_input. Qed.
 
 Theorem C06_randmio_ret_sound : forall und n R itr s x,
   randmio_signed_ret und n R itr s = Some x -> randmio_signed und n R itr s = x.
@@ -154,18 +155,17 @@ Proof. exact randmio_signed_ret_Some. Qed.
    oracles_ok_sign per m ords perms = Some (ords', perms'): for wei_freq = 0 (per = 0) one argsort order that is a
    permutation of 0..m-1; otherwise, for m, m - per, m - 2 per, ... > 0, one argsort order and one rng.permutation
    result, both permutations of 0..m-1; ords', perms' = what is left.  For symmetric (und) input, an admissible period,
-   no integer-dtype crash, a rewiring that gets its nodes, and such oracles for the positive and then the negative
-   weights, the call RETURNS and consumes exactly those oracles. *)
-Theorem C06_null_model_total : forall und n W isint close bin_swaps wei_freq pf ints ords perms per o1 p1 o2 p2,
+   enough randint draws for the rewiring, and such oracles for the positive and then the negative weights, the call
+   RETURNS and consumes exactly those oracles. *)
+Theorem C06_null_model_total : forall und n W close bin_swaps wei_freq pf ints ords perms per o1 p1 o2 p2,
   let Wc := tab 0 n n (clear_diag W) in
   let rew := (length (supp false n 1 Wc) <? n * (n - 1))%nat in
   (0 < n)%nat -> pre und n W ->
   period_or wei_freq pf = Some per ->
-  (isint && negb (Nat.eqb per 0) && has_weight und n Wc)%bool = false ->
-  (rew = true -> runs_out und n (n_iter und n bin_swaps) Wc ints = false) ->
+  (rew = true -> randmio_runs_out und n Wc bin_swaps ints = false) ->
   oracles_ok_sign per (length (supp und n 1 Wc)) ords perms = Some (o1, p1) ->
   oracles_ok_sign per (length (supp und n (-1) Wc)) o1 p1 = Some (o2, p2) ->
-  exists r, null_model und n W isint close bin_swaps wei_freq pf ints ords perms = Returned r /\
+  exists r, null_model und n W close bin_swaps wei_freq pf ints ords perms = Returned r /\
             snd (nm_unread r) = (length o2, length p2).
 Proof. exact null_model_total. Qed.
 
@@ -181,8 +181,8 @@ Theorem C06_period_exact : forall wf,
 Proof. intros wf. split; [apply near_round|split; [apply period_or_exact|reflexivity]]. Qed.
 
 (* BCTParamError exactly for undirected, not exactly symmetric, and np.allclose says no *)
-Theorem C06_null_model_param_error_iff : forall und n W isint close bin_swaps wei_freq pf ints ords perms,
-  null_model und n W isint close bin_swaps wei_freq pf ints ords perms = ParamError <->
+Theorem C06_null_model_param_error_iff : forall und n W close bin_swaps wei_freq pf ints ords perms,
+  null_model und n W close bin_swaps wei_freq pf ints ords perms = ParamError <->
   (und = true /\ symb n W = false /\ close = false).
 Proof. exact null_model_param_error_iff. Qed.
 
@@ -200,16 +200,16 @@ Theorem C06_corr_equal_seq : forall x y n, (forall i, (i < n)%nat -> y i = x i) 
 Proof. exact corr3_equal_seq. Qed.
 
 (* the four numbers a null model returns: each triple satisfies cxy^2 <= cxx*cyy, cxx >= 0, cyy >= 0 *)
-Theorem C06_null_model_corr_range : forall und n W isint close bin_swaps wei_freq pf ints ords perms r,
+Theorem C06_null_model_corr_range : forall und n W close bin_swaps wei_freq pf ints ords perms r,
   (0 < n)%nat -> pre und n W ->
-  null_model und n W isint close bin_swaps wei_freq pf ints ords perms = Returned r ->
+  null_model und n W close bin_swaps wei_freq pf ints ords perms = Returned r ->
   length (nm_corr r) = 4%nat /\ Forall triple_ok (nm_corr r).
 Proof. exact null_model_corr_range. Qed.
 
 (* a strength sequence that the output reproduces exactly has coefficient 1: its triple is (c, c, c) *)
-Theorem C06_null_model_corr_one : forall und n W isint close bin_swaps wei_freq pf ints ords perms r,
+Theorem C06_null_model_corr_one : forall und n W close bin_swaps wei_freq pf ints ords perms r,
   (0 < n)%nat -> pre und n W ->
-  null_model und n W isint close bin_swaps wei_freq pf ints ords perms = Returned r ->
+  null_model und n W close bin_swaps wei_freq pf ints ords perms = Returned r ->
   let Wc := clear_diag W in
   ((forall j, (j < n)%nat -> str_in ppart (nm_W0 r) n j = str_in ppart Wc n j) ->
      exists c, nth 0 (nm_corr r) (0, 0, 0) = (c, c, c)) /\
@@ -235,7 +235,7 @@ Proof. eexists. eexists. eexists. split; [vm_compute; reflexivity|]. vm_compute.
 Example C06_null_model_dir_nonvacuous :
   let W := of_rows 0 [[0; 2; -1; 0; 3]; [1; 0; 0; -2; 0]; [-3; 0; 0; 1; 2]; [0; -1; 4; 0; 0]; [2; 0; -2; 1; 0]]%list in
   let lens := [8; 6; 4; 2; 5; 3; 1]%nat in
-  exists r, null_model false 5 W false false 1 (1 # 2) 2 ([430; 6; 38] ++ repeat 586 108)%list (map (seq 0) lens) (map (fun m => rev (seq 0 m)) lens) = Returned r
+  exists r, null_model false 5 W false 1 (1 # 2) 2 ([430; 6; 38] ++ repeat 586 108)%list (map (seq 0) lens) (map (fun m => rev (seq 0 m)) lens) = Returned r
             /\ zrows 5 (nm_W0 r) = [[0; 0; -1; 1; 1]; [0; 0; 1; -1; 0]; [-2; 2; 0; 0; 2]; [2; -2; 0; 0; 0]; [3; 0; -3; 4; 0]]%list
             /\ length (nm_trace r) = 2%nat /\ nm_unread r = (0, (0, 0))%nat.
 Proof. eexists. split; [vm_compute; reflexivity|]. split; [|split]; vm_compute; reflexivity. Qed.
@@ -243,7 +243,7 @@ Proof. eexists. split; [vm_compute; reflexivity|]. split; [|split]; vm_compute; 
 (* undirected null model, wei_freq = 0 (one argsort per sign, no permutation draw), bin_swaps = 0 *)
 Example C06_null_model_und_nonvacuous :
   let W := of_rows 0 [[0; 2; -1; 0; 3]; [2; 0; 0; -2; 1]; [-1; 0; 0; 1; -2]; [0; -2; 1; 0; 0]; [3; 1; -2; 0; 0]]%list in
-  exists r, null_model true 5 W true false 0 0 0 []%list [[2; 0; 3; 1]; [1; 2; 0]]%list%nat []%list = Returned r
+  exists r, null_model true 5 W false 0 0 0 []%list [[2; 0; 3; 1]; [1; 2; 0]]%list%nat []%list = Returned r
             /\ zrows 5 (nm_W0 r) = [[0; 1; -2; 0; 3]; [1; 0; 0; -1; 1]; [-2; 0; 0; 2; -2]; [0; -1; 2; 0; 0]; [3; 1; -2; 0; 0]]%list.
 Proof. eexists. split; [vm_compute; reflexivity|]. vm_compute. reflexivity. Qed.
 
@@ -254,23 +254,23 @@ Example C06_total_nonvacuous :
   let lens := [8; 6; 4; 2; 5; 3; 1]%nat in
   let ords := map (seq 0) lens in let perms := map (fun m => rev (seq 0 m)) lens in
   period_or (1 # 2) 2 = Some 2%nat /\
-  runs_out false 5 (n_iter false 5 1) Wc ([430; 6; 38] ++ repeat 586 108)%list = false /\
+  randmio_runs_out false 5 Wc 1 ([430; 6; 38] ++ repeat 586 108)%list = false /\
   oracles_ok_sign 2 (length (supp false 5 1 Wc)) ords perms = Some (skipn 4 ords, skipn 4 perms) /\
   oracles_ok_sign 2 (length (supp false 5 (-1) Wc)) (skipn 4 ords) (skipn 4 perms) = Some ([], [])%list.
 Proof. split; [|split; [|split]]; vm_compute; reflexivity. Qed.
 
-(* a 3-node network with one positive and one negative connection: one iteration requested, the call does not return *)
+(* a 3-node network with one positive and one negative connection: it comes back unchanged, eff = 0, no draw read *)
 Example C06_small_n_nonvacuous :
-  (0 < n_iter true 3 1)%nat /\
-  run_randmio_signed true [[0; 1; -1]; [1; 0; 0]; [-1; 0; 0]]%list 1 [5; 7; 11; 80]%list = None.
-Proof. split; vm_compute; [repeat constructor|reflexivity]. Qed.
+  run_randmio_signed true [[0; 1; -1]; [1; 0; 0]; [-1; 0; 0]]%list 1 [5; 7; 11; 80]%list
+  = Some ([[0; 1; -1]; [1; 0; 0]; [-1; 0; 0]]%list, (0, 4)%nat, []%list).
+Proof. vm_compute. reflexivity. Qed.
 
 (* why the undirected theorems assume exact symmetry: an input that np.allclose accepts (close = true) but that is not
    symmetric (2049 vs 2048, in units of 1/128) loses the weight 2048 of its lower triangle *)
 Example C06_null_model_und_needs_symmetry :
   let W := of_rows 0 [[0; 2049; -1024; 0]; [2048; 0; 0; -2048]; [-1024; 0; 0; 1024]; [0; -2048; 1024; 0]]%list in
   symb 4 W = false /\
-  exists r, null_model true 4 W false true 0 0 0 []%list [[0; 1]; [0; 1]]%list%nat []%list = Returned r
+  exists r, null_model true 4 W true 0 0 0 []%list [[0; 1]; [0; 1]]%list%nat []%list = Returned r
             /\ cnt 2048 W 4 = 1 /\ cnt 2048 (nm_W0 r) 4 = 0.
 Proof. split; [vm_compute; reflexivity|]. eexists. split; [vm_compute; reflexivity|]. split; vm_compute; reflexivity. Qed.
 
@@ -297,7 +297,7 @@ Print Assumptions C06_corr3_cov.
 Print Assumptions C06_signed_run_diag_empty.
 Print Assumptions C06_signed_run_selfloop_kept.
 Print Assumptions C06_randmio_diag_refuted.
-Print Assumptions C06_randmio_small_n_never_returns.
+Print Assumptions C06_randmio_small_n_returns_input.
 Print Assumptions C06_randmio_ret_sound.
 Print Assumptions C06_null_model_total.
 Print Assumptions C06_period_domain.
